@@ -1,20 +1,21 @@
 """C11  Collections keep every member inside their own taxon namespace.
 
-Method: runtime monitoring.  Every case is an operation history executed on REAL TreeList /
-TreeArray / CharacterMatrix / DataSet objects that live together in one "world" (several
-namespaces, case-sensitive and not, with overlapping / disjoint / case-variant label sets; trees
-and matrices built under foreign namespaces through the node API).  vf.mon.hooks wraps the real
-container methods; the pre-hook snapshots the whole world from raw fields, the post-hook judges
--- after EVERY hooked call, returned or raised:
+Method: runtime monitoring.  Every case is an operation history executed on REAL TreeList (and a user-defined
+subclass) / TreeArray / Dna-, Protein-, Standard-, ContinuousCharacterMatrix / DataSet objects that live together
+in one "world" (several namespaces, case-sensitive and not, mutable and immutable, with overlapping / disjoint /
+case-variant label sets; trees and matrices built under foreign namespaces through the node API, some tips without a
+taxon).  vf.mon.hooks wraps the real container methods; the pre-hook snapshots the whole world from raw fields, the
+post-hook judges -- after EVERY announced hooked call, returned or raised:
 
   closure     every tree of every list: ``tree.taxon_namespace is list.taxon_namespace`` and every
               node taxon is a member (id-set) of that namespace; every sequence key of every matrix
               is a member of the matrix's namespace; every component of a data set in attached
               mode refers to the attached object, which is listed in ``taxon_namespaces``; a
-              TreeArray and its split distribution share the namespace and every stored leaf-set
-              bitmask consists of bits of members whose labels are the accessioned labels; every
-              tree that left a list (pop/remove/del/overwritten) has all its taxa in its own namespace
-  frame       trees / lists / matrices that were not part of the call are unchanged by identity;
+              TreeArray and its split distribution share the namespace, its four parallel stores have one length,
+              every stored leaf-set bitmask consists of bits of members whose labels are the accessioned labels of the
+              tree AT THAT POSITION and every stored split lies inside the leaf set stored with it; every
+              tree that left a list (pop/remove/del/clear/overwritten) has all its taxa in its own namespace
+  frame       trees / lists / matrices / arrays that were not part of the call are unchanged by identity;
               no namespace loses or relabels a member
   provenance  (normal return) lists hold exactly the expected members (same objects, or copies
               paired node by node with their source); every item keeps its label up to the target
@@ -22,11 +23,24 @@ container methods; the pre-hook snapshots the whole world from raw fields, the p
               a label that already had a member re-uses a member, no second taxon for a label
               appears in the namespace; "add" / update / same-namespace: the taxon object is kept;
               unify_taxa_by_label=False: old->new taxon is a bijection; a pre-seeded
-              taxon_mapping_memo wins; matrices keep every sequence; reads deliver the source's
-              number of trees/rows with the source's label multisets
+              taxon_mapping_memo wins (for every call that takes one: migrate / reconstruct of lists and matrices,
+              append / insert) and its target becomes a member; matrices keep every sequence; reads deliver the
+              SELECTED trees / matrices of the source (collection_offset, tree_offset, matrix_offset, exclude_*) with the
+              source's label multisets, into the namespace that was passed in (TreeList.get, <Type>CharacterMatrix.get,
+              DataSet.read / get - also when that namespace is still empty)
   refusal     TaxonNamespaceReconstructionError is legitimate only if two rows have equal labels under
-              the target's case rule (predicted from labels); other exceptions only from the
-              documented set of the call
+              the target's case rule (predicted from labels); ImmutableTaxonNamespaceError only if the target is
+              immutable and a taxon would have to be created / registered (predicted from labels and identities);
+              KeyError / ValueError of matrix row access only for a label without member / a Taxon that is not a member /
+              new_sequence over an existing row; IndexError only for an offset beyond the source; other exceptions only
+              from the documented set of the call.  A call that exceeds its logical step budget (vf.mon.budget) is
+              reported as ``does-not-terminate`` - the wall clock never decides.
+
+Read routes: a table {newick, nexus, nexml, fasta, phylip} x {trees, matrices, both} x layout (NEXUS: no / one / two
+titled TAXA blocks with LINK, TRANSLATE, CHARACTERS or DATA block, INTERLEAVE, one or two TREES / CHARACTERS blocks;
+NeXML: several <trees> / <characters>; PHYLIP: strict / relaxed x sequential / interleaved) x source (data= / file= /
+path=) x options (collection_offset, tree_offset, matrix_offset, exclude_trees / exclude_chars, taxon_namespace= /
+legacy taxon_set=, several files per read_from_files call), written by hand in _c11_docs.py.
 
 Soundness limits: a Tree object is never put into two lists of different namespaces and lists of an
 attached data set never get namespace-changing calls (API misuse, not a defect); data sets are
@@ -34,1027 +48,134 @@ attached / unified before foreign material arrives and only same-namespace objec
 strategy "add", update_taxon_namespace, Taxon keys of from_dict and unify_taxa_by_label=False may
 create equal labels on distinct taxa by design (those items are only required to keep their taxon /
 stay distinct); reader case sensitivity is always set to the namespace's; labels are letters only
-(no numeric tokens, quoting or underscores: C02/C10 ground); a NEXUS TAXA block read into a
-non-empty list may be refused (TooManyTaxaError: recorded); the order of new members in a namespace
-and which of several equal-labelled members is re-used are not judged; TreeArray.migrate (not
-implemented by the library) is not exercised; rows that collapse when a matrix is *copied* into a
-namespace where their labels are equal are recorded, not judged.
+(no numeric tokens, quoting or underscores: C02/C10 ground; no Taxon(label=None)); a NEXUS file that declares NTAX
+and is read into a namespace with other members, and a file with several titled TAXA blocks read by a
+single-namespace route (TreeList / TreeArray / CharacterMatrix) may be refused (recorded, not judged); the order of
+new members in a namespace and which of several equal-labelled members is re-used are not judged; TreeArray.migrate
+(not implemented by the library) is not exercised; rows that collapse when a matrix is *copied* into a namespace where
+their labels are equal are recorded, not judged; ``x.taxon_namespace = ns; x.reconstruct/update_taxon_namespace()``
+is not driven where a refusal is predicted (the caller's assignment has broken the closure, a refusal cannot restore
+it: those refusals are driven through migrate_taxon_namespace); argument trees of a refused call are members of
+nothing, their state is recorded, not judged; a mapping memo whose target is itself one of the taxa being moved is
+not generated; new_tree(seed_node=...) / reindex_taxa (deprecated, not functional) are not driven.
 
-Violation keys are ``<hooked method>|<clause>[-after-raise]|<discriminator>``; for a state left behind by a
-refusal the discriminator is ``<exception class>@<innermost library function>``.  Directed scripts (DIRECTED,
-run first) hold the smallest witness of every key seen on the pinned tree: NeXML sources read into a populated
-namespace create second taxa for known labels (``TreeList.read|get|existing-taxon-duplicated|nexml``);
-CharacterMatrix.reconstruct_taxon_namespace mistakes a taxon that maps to itself for a second sequence
-(``*|spurious-refusal|row-taxon-already-member``) and, like DataSet.unify_taxon_namespaces, is not atomic when
-it refuses (``*-after-raise|TaxonNamespaceReconstructionError@CharacterMatrix.reconstruct_taxon_namespace``)."""
+Violation keys are ``<hooked method>|<clause>[-after-raise | -after-<ExceptionClass>]|<discriminator>``; for a state
+left behind by a refusal the discriminator is ``<exception class>@<innermost library function>``; the suffix
+``-after-raise`` is reserved for label-collision refusals (TaxonNamespaceReconstructionError), every other
+exception class names itself in the clause, so that the recorded finding about DataSet.unify_taxon_namespaces
+(``DataSet.unify_taxon_namespaces|attached-namespace-not-listed-after-raise|TaxonNamespaceReconstructionError@
+CharacterMatrix.reconstruct_taxon_namespace`` and ``...|dataset-component-namespace-not-attached-after-raise|...``)
+cannot hide the state another refusal leaves behind.  Directed scripts (DIRECTED, run first) hold the smallest
+witness of every key seen on the pinned tree and of every input class an audit found missing."""
+import os
 import random
 
-from .. import ref, gen, bridge, core
+from .. import core
 from ..mon.hooks import Hooks
-from ..mon.budget import budget, StepBudgetExceeded
 from . import _c11_util as U
-from ._c11_util import Expect
+from ._c11_drv_base import DriverBase, Stop, STEP_LIMIT
+from ._c11_drv_lists import ListOps
+from ._c11_drv_other import MatrixOps, DataSetOps, ArrayOps
 
 PROP = "C11"
 LEVEL = "exploration"
 TECHNIQUE = ("runtime monitoring: hooks on the container methods + closure / frame / provenance oracles over "
-             "snapshots of all live containers after every operation of random and directed histories")
+             "snapshots of all live containers after every operation of random and directed histories; logical step budget "
+             "per operation for non-termination")
 RULE = ("case = one operation history (directed witness scripts first, then random histories of 10-40 operations) on a world of "
-        "2-4 namespaces (case-sensitive or not) x tree lists / matrices / data sets / tree arrays; operations draw trees and rows "
-        "built under foreign namespaces with overlapping, disjoint and case-variant labels, both taxon_import_strategy values, "
-        "unify_taxa_by_label in {True, False}, Newick / NEXUS / NeXML / FASTA texts read into existing containers. "
-        "non-trivial/distinct = distinct (operation, import mode, case rule of target, label-overlap class) of an operation that moved "
-        "at least one item across namespaces")
+        "2-4 namespaces (case-sensitive or not, ~13 % immutable) x tree lists (and a subclass) / matrices of four data types / data "
+        "sets / tree arrays; operations draw trees and rows built under foreign namespaces with overlapping, disjoint and "
+        "case-variant labels, both taxon_import_strategy values, unify_taxa_by_label in {True, False}, pre-seeded mapping memos "
+        "(target new / member / member of a third namespace) for every call that takes one, sources list / tuple / iterator / "
+        "generator / TreeList / the receiver itself, slices with negative bounds and steps, Newick / NEXUS / NeXML / FASTA / PHYLIP "
+        "texts in all layouts read with offsets / exclusions / given namespaces from data=, file= and path=, all ten TreeArray "
+        "accession routes incl. merges with arrays over other namespaces, unification with and without attaching (and its legacy "
+        "alias). non-trivial/distinct = distinct (operation, import mode, case rule and mutability of target, label-overlap class) "
+        "of an operation that moved at least one item across namespaces")
 REACH = ["treecollectionmodel:TreeList._import_tree_to_taxon_namespace", "treecollectionmodel:TreeList.insert",
          "treecollectionmodel:TreeList.append", "treecollectionmodel:TreeList.extend", "treecollectionmodel:TreeList.__setitem__",
          "treecollectionmodel:TreeList.__add__", "treecollectionmodel:TreeList.__iadd__", "treecollectionmodel:TreeList.new_tree",
+         "treecollectionmodel:TreeList.clear", "treecollectionmodel:TreeList.as_tree_array", "treecollectionmodel:TreeList.split_distribution",
          "treecollectionmodel:TreeList._parse_and_add_from_stream", "treecollectionmodel:TreeList._parse_and_create_from_stream",
          "treecollectionmodel:TreeList.reconstruct_taxon_namespace", "treecollectionmodel:TreeList.update_taxon_namespace",
-         "treecollectionmodel:TreeList._clone_from", "treecollectionmodel:TreeArray.add_tree", "treecollectionmodel:TreeArray.read_from_files",
-         "taxonmodel:TaxonNamespaceAssociated.migrate_taxon_namespace", "_tree:Tree.reconstruct_taxon_namespace",
-         "_tree:Tree.update_taxon_namespace", "_tree:Tree._clone_from",
+         "treecollectionmodel:TreeList._clone_from", "treecollectionmodel:TreeArray.add_tree", "treecollectionmodel:TreeArray.add_trees",
+         "treecollectionmodel:TreeArray.append", "treecollectionmodel:TreeArray.insert", "treecollectionmodel:TreeArray.extend",
+         "treecollectionmodel:TreeArray.__iadd__", "treecollectionmodel:TreeArray.__add__", "treecollectionmodel:TreeArray.update",
+         "treecollectionmodel:TreeArray.from_tree_list", "treecollectionmodel:TreeArray.read_from_files",
+         "taxonmodel:TaxonNamespaceAssociated.migrate_taxon_namespace", "taxonmodel:TaxonNamespaceAssociated._set_taxon_namespace",
+         "_tree:Tree.reconstruct_taxon_namespace", "_tree:Tree.update_taxon_namespace", "_tree:Tree._clone_from",
          "charmatrixmodel:CharacterMatrix.reconstruct_taxon_namespace", "charmatrixmodel:CharacterMatrix.update_taxon_namespace",
          "charmatrixmodel:CharacterMatrix.new_sequence", "charmatrixmodel:CharacterMatrix.__setitem__",
          "charmatrixmodel:CharacterMatrix.from_dict", "charmatrixmodel:CharacterMatrix._clone_from",
-         "datasetmodel:DataSet.unify_taxon_namespaces", "datasetmodel:DataSet._parse_and_add_from_stream",
+         "charmatrixmodel:CharacterMatrix._parse_and_create_from_stream",
+         "datasetmodel:DataSet.unify_taxon_namespaces", "datasetmodel:DataSet.unify_taxa", "datasetmodel:DataSet._parse_and_add_from_stream",
          "datasetmodel:DataSet._parse_and_create_from_stream", "datasetmodel:DataSet.new_tree_list", "datasetmodel:DataSet.new_char_matrix",
-         "datasetmodel:DataSet.attach_taxon_namespace", "ioservice:DataReader.read_dataset", "ioservice:DataReader.read_tree_lists"]
-MIN_EVENTS = {"op-applied": (30000, 250000), "closure:list-judged": (100000, 800000), "closure:matrix-judged": (40000, 300000),
-              "closure:dataset-judged": (15000, 120000), "closure:array-judged": (10000, 80000),
-              "closure:removed-tree-judged": (20000, 160000), "frame:tree-judged": (250000, 2000000),
-              "item:unify-judged": (70000, 500000), "item:same-judged": (30000, 240000), "item:add-judged": (9000, 70000),
-              "item:distinct-judged": (5000, 40000), "item:memo-judged": (100, 800), "read-judged": (4000, 30000), "read-into-given-namespace-judged": (300, 2400),
-              "unify-judged": (300, 2400), "list-content-judged": (20000, 160000), "matrix-rows-judged": (3000, 24000),
-              "documented-error-seen": (1000, 8000), "history-completed": (1000, 8000),
-              "hook:TreeList.append:return": (3000, 24000), "hook:TreeList.insert:return": (1500, 12000),
-              "hook:TreeList.extend:return": (1000, 8000), "hook:TreeList.__iadd__:return": (1000, 8000),
-              "hook:TreeList.__add__:return": (1000, 8000), "hook:TreeList.__setitem__:return": (2000, 16000),
-              "hook:TreeList.read:return": (1500, 12000), "hook:TreeList.get:return": (700, 5000),
-              "hook:TreeList.new_tree:return": (500, 4000), "hook:TreeList.pop:return": (300, 2400),
-              "hook:TreeList.migrate_taxon_namespace:return": (1000, 8000),
-              "hook:TreeList.reconstruct_taxon_namespace:return": (700, 5000),
-              "hook:TreeList.update_taxon_namespace:return": (700, 5000),
-              "hook:TreeArray.add_tree:return": (200, 1600), "hook:TreeArray.read:return": (200, 1600),
-              "hook:CharacterMatrix.migrate_taxon_namespace:return": (200, 1600),
-              "hook:CharacterMatrix.__setitem__:return": (400, 3000), "hook:CharacterMatrix.from_dict:return": (800, 6000),
-              "hook:DataSet.read:return": (1000, 8000), "hook:DataSet.new_tree_list:return": (600, 5000),
-              "hook:DataSet.new_char_matrix:return": (600, 5000), "hook:DataSet.unify_taxon_namespaces:return": (300, 2400)}
+         "datasetmodel:DataSet.attach_taxon_namespace", "datasetmodel:DataSet.detach_taxon_namespace",
+         "ioservice:DataReader.read_dataset", "ioservice:DataReader.read_tree_lists", "ioservice:DataReader.read_char_matrices",
+         "phylipreader:PhylipReader._parse_interleaved", "phylipreader:PhylipReader._parse_sequential",
+         "nexusreader:NexusReader._parse_taxa_block", "nexusreader:NexusReader._parse_link_statement",
+         "nexmlreader:NexmlReader._read", "fastareader:FastaReader._read"]
+MIN_EVENTS = {"array-read-judged": (1200, 9600), "closure:array-judged": (84000, 672000),
+              "closure:dataset-judged": (55000, 440000), "closure:list-judged": (390000, 3120000),
+              "closure:matrix-judged": (230000, 1840000), "closure:removed-tree-judged": (69000, 552000),
+              "documented-error-seen": (11000, 88000), "frame:array-judged": (80000, 640000),
+              "frame:tree-judged": (700000, 5600000), "history-completed": (5300, 42400),
+              "hook:CharacterMatrix.__setitem__:return": (1700, 13600), "hook:CharacterMatrix.from_dict:return": (3600, 28800),
+              "hook:CharacterMatrix.get:return": (2000, 16000),
+              "hook:CharacterMatrix.migrate_taxon_namespace:return": (1700, 13600),
+              "hook:CharacterMatrix.reconstruct_taxon_namespace:return": (850, 6800),
+              "hook:CharacterMatrix.update_taxon_namespace:return": (820, 6560),
+              "hook:DataSet.detach_taxon_namespace:return": (650, 5200), "hook:DataSet.get:return": (850, 6800),
+              "hook:DataSet.new_char_matrix:return": (2100, 16800), "hook:DataSet.new_tree_list:return": (2200, 17600),
+              "hook:DataSet.read:return": (3400, 27200), "hook:DataSet.unify_taxa:return": (220, 1760),
+              "hook:DataSet.unify_taxon_namespaces:return": (1500, 12000), "hook:TreeArray.__add__:return": (170, 1360),
+              "hook:TreeArray.__iadd__:return": (150, 1200), "hook:TreeArray.add_tree:return": (1300, 10400),
+              "hook:TreeArray.add_trees:return": (380, 3040), "hook:TreeArray.append:return": (220, 1760),
+              "hook:TreeArray.extend:return": (170, 1360), "hook:TreeArray.from_tree_list:return": (150, 1200),
+              "hook:TreeArray.insert:return": (460, 3680), "hook:TreeArray.read:return": (810, 6480),
+              "hook:TreeArray.read_from_files:return": (390, 3120), "hook:TreeArray.update:return": (340, 2720),
+              "hook:TreeList.__add__:return": (3700, 29600), "hook:TreeList.__iadd__:return": (3700, 29600),
+              "hook:TreeList.__setitem__:return": (6200, 49600), "hook:TreeList.append:return": (9600, 76800),
+              "hook:TreeList.as_tree_array:return": (160, 1280), "hook:TreeList.clear:return": (700, 5600),
+              "hook:TreeList.extend:return": (3600, 28800), "hook:TreeList.get:return": (2600, 20800),
+              "hook:TreeList.insert:return": (5000, 40000), "hook:TreeList.migrate_taxon_namespace:return": (4200, 33600),
+              "hook:TreeList.new_tree:return": (2300, 18400), "hook:TreeList.pop:return": (1300, 10400),
+              "hook:TreeList.read:return": (5100, 40800), "hook:TreeList.reconstruct_taxon_namespace:return": (2500, 20000),
+              "hook:TreeList.update_taxon_namespace:return": (2500, 20000), "item:add-judged": (26000, 208000),
+              "item:distinct-judged": (14000, 112000), "item:memo-judged": (1300, 10400), "item:same-judged": (85000, 680000),
+              "item:taxonless-judged": (150000, 1200000), "item:unify-judged": (200000, 1600000),
+              "list-content-judged": (74000, 592000), "matrix-rows-judged": (13000, 104000), "op-applied": (120000, 960000),
+              "read-into-given-namespace-judged": (8200, 65600), "read-judged": (14000, 112000),
+              "read-matrix-judged": (5300, 42400), "split-distribution-namespace-judged": (150, 1200),
+              "unify-judged": (1700, 13600)}
 ASSUMPTIONS = ["TaxonNamespace membership/iteration and taxon_bitmask are taken as given (their own consistency is C10)",
                "the case rule of a namespace is: exact comparison if is_case_sensitive else comparison of str.lower()",
-               "snapshots read raw fields (_seed_node, _child_nodes, node.taxon, _trees, _taxon_sequence_map, _tree_leafset_bitmasks)"]
+               "snapshots read raw fields (_seed_node, _child_nodes, node.taxon, _trees, _taxon_sequence_map, _tree_leafset_bitmasks, "
+               "_tree_split_bitmasks, _tree_edge_lengths, _tree_weights)",
+               "a namespace with is_mutable=False cannot gain members; a call that would need a new member there may refuse with "
+               "ImmutableTaxonNamespaceError",
+               "a terminating container operation of these sizes needs less than a tenth of the logical step budget"]
 LEVEL_TEXT = ("Runtime monitors (hooks on the real container methods; closure / frame / provenance oracles over raw-field snapshots of "
-              "every live container) observe the real library under generated operation histories; the property held on the executions "
-              "listed in the evidence file, nothing more.")
-LEVEL_NOTE = ("Trusted: the snapshot and oracle code in vf/props/_c11_util.py, TaxonNamespace iteration/membership and taxon_bitmask "
-              "(their consistency is C10), CPython; histories are sampled, coverage is what the workload reached (see evidence).")
+              "every live container; a logical step budget per operation) observe the real library under generated operation histories; "
+              "the property held on the executions listed in the evidence file, nothing more.")
+LEVEL_NOTE = ("Trusted: the snapshot and oracle code in vf/props/_c11_util.py, the hand-written document builders in _c11_docs.py, "
+              "TaxonNamespace iteration/membership and taxon_bitmask (their consistency is C10), CPython; histories are sampled, "
+              "coverage is what the workload reached (see evidence).")
 CASE_TIMEOUT = 120
-STEP_LIMIT = 3000000
 
 
-class Stop(Exception):
-    """the history cannot go on (a violation was reported or the world is unusable)."""
-
-
-def pick(d, key, fn):
-    if key not in d:
-        d[key] = fn()
-    return d[key]
-
-
-class Driver(object):
-    """executes operation descriptors (JSON-able dicts; fields that are missing are drawn from the rng and
-    written back, so the logged history is complete) on the real objects and announces to the monitor
-    what each hooked call is expected to do."""
-
-    def __init__(self, ctx, rng, mon):
-        self.ctx, self.rng, self.mon = ctx, rng, mon
-        self.w = U.World()
-        self.hist = []
-        mon.world = self.w
-        mon.history = self.hist
-        self.uni = U.universe(rng)
-
-    # ---- plumbing ----------------------------------------------------------------------------
-    def call(self, E, fn):
-        mon = self.mon
-        mon.expect, mon.fired, mon.last_ok, mon.judge_error, mon.consistent = E, False, True, None, True
-        self.ctx.ev("op-applied")
-        self.ctx.ev("op:%s" % E.op)
-        res = exc = None
-        try:
-            with budget(STEP_LIMIT):
-                res = fn()
-        except core.CaseTimeout:
-            raise
-        except StepBudgetExceeded as e:
-            mon.expect = None
-            mon.viol(E, "does-not-terminate", "exceeded the step budget at %s" % e.where, disc=e.where.rsplit(":", 1)[0])
-            raise Stop()
-        except Exception as e:
-            exc = e
-        if mon.judge_error is not None:
-            raise mon.judge_error
-        if not mon.fired:
-            mon.expect = None
-            if exc is not None:
-                raise exc
-            raise core.HarnessBug("hooked operation %s did not reach its hook" % E.op)
-        if not mon.consistent:
-            raise Stop()          # closure / frame broken or undocumented exception: later verdicts would only echo this one
-        return res, exc
-
-    def run(self, d):
-        self.hist.append(d)
-        getattr(self, "op_" + d["op"])(d)
-
-    def NS(self, j):
-        return self.w.namespaces[j]
-
-    def fresh_ns(self, d):
-        import dendropy
-        ns = dendropy.TaxonNamespace(list(d.get("nslabels", [])), is_case_sensitive=bool(d.get("nscs", False)))
-        return self.w.track_ns(ns)
-
-    def build(self, td):
-        """tree descriptor -> live free tree, built through the node API in its own namespace."""
-        ns = self.fresh_ns(td) if td["ns"] == -1 else self.NS(td["ns"])
-        by_label = {}
-        for tx in ns:
-            by_label.setdefault(tx.label, tx)
-        if not ns.is_case_sensitive and td.setdefault("reuse", self.rng.random() < 0.75):
-            # in a case-insensitive namespace a label is usually written onto the member it matches (as a user who
-            # looks taxa up would do); otherwise a second member that differs in case only is created on purpose
-            low = {}
-            for tx in ns:
-                low.setdefault(tx.label.lower(), tx)
-            for lbl in list(td["labels"]) + list(td.get("itax", ())):
-                if lbl not in by_label and lbl.lower() in low:
-                    by_label[lbl] = low[lbl.lower()]
-        t = bridge.build_tree(U.spec_of(td), ns, rooted=True, taxa_by_label=by_label)
-        self.w.add_free(t)
-        return t
-
-    def rand_td(self, target_ns, same_p=0.3, **kw):
-        rng, w = self.rng, self.w
-        r = rng.random()
-        others = [i for i, x in enumerate(w.namespaces) if x is not target_ns]
-        if r < same_p and target_ns is not None:
-            j = w.ns_index(target_ns)
-        elif r < same_p + 0.45 and others:
-            j = rng.choice(others)
-        else:
-            j = -1
-        td = U.tree_desc(rng, self.uni, j, **kw)
-        if j == -1:
-            td["nscs"] = rng.random() < 0.3
-            td["nslabels"] = rng.sample(self.uni, rng.randint(0, min(3, len(self.uni))))
-        return td
-
-    def tree_arg(self, d, target_ns, key="t", **kw):
-        """a free tree: newly built, or (sometimes) one that was removed from a list earlier."""
-        removed = [e[0] for e in self.w.free if e[1] == "removed"]
-        if key not in d:
-            if removed and self.rng.random() < 0.25:
-                d[key] = {"removed": self.rng.randrange(len(removed))}
-            else:
-                d[key] = self.rand_td(target_ns, **kw)
-        td = d[key]
-        if "removed" in td:
-            if not removed:
-                raise Stop()
-            return removed[td["removed"] % len(removed)]
-        return self.build(td)
-
-    @staticmethod
-    def mode(t, ns, strategy="migrate", unify=True):
-        if t.taxon_namespace is ns:
-            return "same"
-        if strategy == "add":
-            return "add"
-        return "unify" if unify else "distinct"
-
-    def sig(self, op, mode, ns, labels):
-        """distinct non-trivial operation classes (for the evidence)."""
-        if mode == "same":
-            return
-        have = [t.label for t in ns] if ns is not None else []
-        exact = set(have)
-        low = set(x.lower() for x in have)
-        cls = "disjoint"
-        if any(x in exact for x in labels):
-            cls = "overlap-exact"
-        if any(x not in exact and x.lower() in low for x in labels):
-            cls += "+case-variant"
-        self.ctx.nontrivial((op, mode, bool(ns.is_case_sensitive) if ns is not None else None, cls))
-
-    def labels_of(self, t):
-        return [x[2] for x in U.walk(t) if x[2] is not None]
-
-    def L(self, d):
-        if not self.w.lists:
-            raise Stop()
-        return self.w.lists[pick(d, "l", lambda: self.rng.randrange(len(self.w.lists))) % len(self.w.lists)]
-
-    def model(self, lst):
-        return list(self.w.model[id(lst)])
-
-    def objs(self, trees):
-        return [("obj", t) for t in trees]
-
-    def movable(self, lst):
-        """namespace-changing calls are not made on components of a data set in attached mode."""
-        return not self.w.in_attached_dataset(lst)
-
-    def other_ns(self, d, cur, key="ns", same_p=0.1):
-        def f():
-            idx = [i for i, x in enumerate(self.w.namespaces) if x is not cur]
-            if not idx or self.rng.random() < same_p:
-                return self.w.ns_index(cur)
-            return self.rng.choice(idx)
-        return self.NS(pick(d, key, f) % len(self.w.namespaces))
-
-    def trim(self):
-        """keep the world small: forget the oldest free-standing lists."""
-        w = self.w
-        while len(w.lists) > 6:
-            for lst in w.lists:
-                if w.dataset_of(lst) is None:
-                    w.forget_list(lst)
-                    break
-            else:
-                break
-        while len(w.free) > 8:
-            w.free.pop(0)
-        while len(w.mats) > 5:
-            for m in w.mats:
-                if w.dataset_of(m) is None:
-                    w.mats = [x for x in w.mats if x is not m]
-                    break
-            else:
-                break
-
-    # ---- set-up operations ---------------------------------------------------------------------
-    def op_mk_ns(self, d):
-        import dendropy
-        ns = dendropy.TaxonNamespace(list(d["labels"]), is_case_sensitive=bool(d["cs"]))
-        self.w.track_ns(ns)
-
-    def op_mk_list(self, d):
-        import dendropy
-        ns = self.NS(d["ns"])
-        E = Expect("TreeList.__init__", "empty")
-        E.newlist = ("self", [])
-        self.call(E, lambda: dendropy.TreeList(taxon_namespace=ns))
-
-    def op_mk_matrix(self, d):
-        import dendropy
-        m = dendropy.DnaCharacterMatrix(taxon_namespace=self.NS(d["ns"]))
-        self.w.track_mat(m)
-
-    def op_mk_dataset(self, d):
-        import dendropy
-        ds = dendropy.DataSet()
-        self.w.datasets.append(ds)
-        if d.get("attach") is not None:
-            ns = self.NS(d["attach"])
-            E = Expect("DataSet.attach_taxon_namespace")
-            self.call(E, lambda: ds.attach_taxon_namespace(ns))
-
-    def op_mk_array(self, d):
-        import dendropy
-        a = dendropy.TreeArray(taxon_namespace=self.NS(d["ns"]), is_rooted_trees=True)
-        self.w.arrays.append([a, []])
-
-    # ---- TreeList ------------------------------------------------------------------------------
-    def _import_kw(self, d, E):
-        rng = self.rng
-        strat = pick(d, "strategy", lambda: rng.choice(["migrate"] * 5 + ["add"] * 3 + ["bogus"]))
-        kw = {}
-        unify = True
-        if strat == "migrate":
-            unify = pick(d, "unify", lambda: rng.random() > 0.2)
-            if not unify:
-                kw["unify_taxa_by_label"] = False
-        if strat == "bogus":
-            E.allowed = (ValueError,)
-        E.disc = strat if unify else "migrate/no-unify"
-        return strat, unify, kw
-
-    def op_append(self, d):
-        L = self.L(d)
-        ns = L.taxon_namespace
-        t = self.tree_arg(d, ns)
-        E = Expect("TreeList.append")
-        strat, unify, kw = self._import_kw(d, E)
-        mode = self.mode(t, ns, strat, unify)
-        E.inplace = [(t, mode, None)]
-        E.consumed = [t]
-        E.lists[id(L)] = (L, self.objs(self.model(L) + [t]))
-        self.sig(E.op, mode, ns, self.labels_of(t))
-        self.call(E, lambda: L.append(t, taxon_import_strategy=strat, **kw))
-
-    def op_insert(self, d):
-        L = self.L(d)
-        ns = L.taxon_namespace
-        t = self.tree_arg(d, ns)
-        m = self.model(L)
-        i = pick(d, "i", lambda: self.rng.randint(-len(m) - 1, len(m) + 1))
-        E = Expect("TreeList.insert")
-        strat, unify, kw = self._import_kw(d, E)
-        mode = self.mode(t, ns, strat, unify)
-        m.insert(i, t)
-        E.inplace = [(t, mode, None)]
-        E.consumed = [t]
-        E.lists[id(L)] = (L, self.objs(m))
-        self.sig(E.op, mode, ns, self.labels_of(t))
-        self.call(E, lambda: L.insert(i, t, strat, **kw))
-
-    def _source(self, d, L, allow_self=False):
-        """material for extend/+=/+/slice assignment: a python list of free trees or another TreeList.
-        returns (argument, slots, inplace, consumed, kind)"""
-        rng, w = self.rng, self.w
-        ns = L.taxon_namespace
-        kind = pick(d, "src", lambda: rng.choice(["list", "list", "tl", "tl", "tuple"]))
-        if kind == "tl":
-            cands = [i for i, x in enumerate(w.lists) if x is not L or allow_self]
-            if not cands:
-                kind = d["src"] = "list"
-        if kind == "tl":
-            o = w.lists[pick(d, "o", lambda: rng.choice(cands)) % len(w.lists)]
-            if o is L and not allow_self:
-                raise Stop()
-            mode = "same" if o.taxon_namespace is ns else "unify"
-            slots = [("clone", t, mode) for t in self.model(o)]
-            for t in self.model(o):
-                self.sig("clone", mode, ns, self.labels_of(t))
-            return o, slots, [], [], "tl/" + mode
-        n = len(pick(d, "ts", lambda: [self.rand_td(ns) for _ in range(rng.randint(0, 3))]))
-        trees = [self.build(td) for td in d["ts"]]
-        inplace = [(t, self.mode(t, ns), None) for t in trees]
-        for t in trees:
-            self.sig("import", self.mode(t, ns), ns, self.labels_of(t))
-        arg = tuple(trees) if kind == "tuple" else list(trees)
-        return arg, self.objs(trees), inplace, list(trees), "list"
-
-    def op_extend(self, d):
-        L = self.L(d)
-        arg, slots, inplace, consumed, kind = self._source(d, L)
-        via = pick(d, "via", lambda: self.rng.choice(["extend", "iadd"]))
-        E = Expect("TreeList.extend" if via == "extend" else "TreeList.__iadd__", kind)
-        E.inplace, E.consumed = inplace, consumed
-        E.lists[id(L)] = (L, self.objs(self.model(L)) + slots)
-        if via == "extend":
-            self.call(E, lambda: L.extend(arg))
-        else:
-            def f():
-                x = L
-                x += arg
-                return x
-            res, exc = self.call(E, f)
-            if exc is None and res is not L:
-                self.mon.viol(E, "iadd-returned-other-object", "+= did not return the list itself")
-                raise Stop()
-
-    def op_add(self, d):
-        L = self.L(d)
-        arg, slots, inplace, consumed, kind = self._source(d, L, allow_self=True)
-        E = Expect("TreeList.__add__", kind)
-        E.inplace, E.consumed = inplace, consumed
-        E.newlist = ("result", [("clone", t, "same") for t in self.model(L)] + slots)
-        self.call(E, lambda: L + arg)
-        self.trim()
-
-    def op_setitem(self, d):
-        L = self.L(d)
-        m = self.model(L)
-        if not m:
-            return self.op_append(d)
-        ns = L.taxon_namespace
-        i = pick(d, "i", lambda: self.rng.randrange(-len(m), len(m)))
-        t = self.tree_arg(d, ns)
-        mode = self.mode(t, ns)
-        E = Expect("TreeList.__setitem__", "index")
-        E.displaced = [m[i]]
-        m[i] = t
-        E.inplace = [(t, mode, None)]
-        E.consumed = [t]
-        E.lists[id(L)] = (L, self.objs(m))
-        self.sig(E.op, mode, ns, self.labels_of(t))
-
-        def f():
-            L[i] = t
-        self.call(E, f)
-
-    def op_setslice(self, d):
-        L = self.L(d)
-        m = self.model(L)
-        a = pick(d, "a", lambda: self.rng.randint(0, len(m)))
-        b = pick(d, "b", lambda: self.rng.randint(a, len(m)))
-        arg, slots, inplace, consumed, kind = self._source(d, L)
-        E = Expect("TreeList.__setitem__", "slice/" + kind)
-        E.displaced = m[a:b]
-        s = self.objs(m)
-        s[a:b] = slots
-        E.inplace, E.consumed = inplace, consumed
-        E.lists[id(L)] = (L, s)
-
-        def f():
-            L[a:b] = arg
-        self.call(E, f)
-
-    def op_getslice(self, d):
-        L = self.L(d)
-        m = self.model(L)
-        a = pick(d, "a", lambda: self.rng.randint(0, len(m)))
-        b = pick(d, "b", lambda: self.rng.randint(a, len(m)))
-        E = Expect("TreeList.__getitem__", "slice")
-        E.newlist = ("result", self.objs(m[a:b]))
-        res, exc = self.call(E, lambda: L[a:b])
-        # the slice shares Tree objects with its parent: checked once, then forgotten (see soundness limits)
-        if res is not None:
-            self.w.forget_list(res)
-
-    def _text(self, d, ns, schemas=("newick", "nexus", "nexus", "nexml", "nexml"), nmin=2):
-        rng = self.rng
-        schema = pick(d, "schema", lambda: rng.choice(schemas))
-        tds = pick(d, "trees", lambda: U.doc_trees(rng, self.uni, rng.randint(1, 3), nmin))
-        specs = [U.spec_of(td, text=True) for td in tds]
-        if schema == "newick":
-            text = U.newick_text(specs)
-        elif schema == "nexus":
-            text = U.nexus_text(specs, taxa_block=pick(d, "taxa_block", lambda: rng.random() < 0.3),
-                                translate=pick(d, "translate", lambda: rng.random() < 0.3))
-        else:
-            text = U.nexml_text(specs)
-        for s in specs:
-            self.sig("read/" + schema, "unify", ns, ref.leaf_taxa(s))
-        return schema, text, [ref.leaf_taxa(s) for s in specs]
-
-    def op_read(self, d):
-        from dendropy.utility import error
-        L = self.L(d)
-        ns = L.taxon_namespace
-        schema, text, labels = self._text(d, ns)
-        E = Expect("TreeList.read", schema)
-        E.lists[id(L)] = (L, self.objs(self.model(L)) + [("read",)] * len(labels))
-        E.reads = {"trees": labels}
-        kw = {"case_sensitive_taxon_labels": bool(ns.is_case_sensitive)}
-        if schema == "nexus" and d.get("taxa_block") and len(ns) > 0:
-            E.allowed = (error.DataParseError,)      # TooManyTaxaError: declared NTAX vs. members already present
-        if pick(d, "foreign_kw", lambda: self.rng.random() < 0.04):
-            kw["taxon_namespace"] = self.other_ns(d, ns, "kwns", same_p=0.0)
-            if kw["taxon_namespace"] is not ns:
-                E.allowed = (TypeError,)
-        res, exc = self.call(E, lambda: L.read(data=text, schema=schema, **kw))
-        if exc is not None and isinstance(exc, error.DataParseError):
-            self.ctx.note("nexus-taxa-block-refused-for-non-empty-namespace")
-
-    def op_get(self, d):
-        import dendropy
-        ns = self.NS(pick(d, "ns", lambda: self.rng.randrange(len(self.w.namespaces))) % len(self.w.namespaces))
-        d.setdefault("taxa_block", False)
-        schema, text, labels = self._text(d, ns, schemas=("newick", "nexus", "nexml"))
-        E = Expect("TreeList.get", schema)
-        E.newlist = ("result", [("read",)] * len(labels))
-        E.reads = {"trees": labels}
-        self.call(E, lambda: dendropy.TreeList.get(data=text, schema=schema, taxon_namespace=ns,
-                                                    case_sensitive_taxon_labels=bool(ns.is_case_sensitive)))
-        self.trim()
-
-    def op_new_tree(self, d):
-        L = self.L(d)
-        E = Expect("TreeList.new_tree")
-        kw = {}
-        if pick(d, "foreign_kw", lambda: self.rng.random() < 0.3):
-            kw["taxon_namespace"] = self.other_ns(d, L.taxon_namespace, "kwns", same_p=0.2)
-            E.disc = "namespace-argument"
-            if kw["taxon_namespace"] is not L.taxon_namespace:
-                E.allowed = (TypeError,)
-        E.lists[id(L)] = (L, self.objs(self.model(L)) + [("new",)])
-        self.call(E, lambda: L.new_tree(**kw))
-
-    def op_remove(self, d):
-        L = self.L(d)
-        m = self.model(L)
-        if not m:
-            return
-        how = pick(d, "how", lambda: self.rng.choice(["pop", "remove", "del", "delslice"]))
-        i = pick(d, "i", lambda: self.rng.randrange(len(m)))
-        i %= len(m)
-        if how == "delslice":
-            b = pick(d, "b", lambda: self.rng.randint(i, len(m)))
-            E = Expect("TreeList.__delitem__", "slice")
-            E.displaced = m[i:b]
-            del m[i:b]
-
-            def f():
-                del L[i:b]
-        elif how == "del":
-            E = Expect("TreeList.__delitem__", "index")
-            E.displaced = [m[i]]
-            del m[i]
-
-            def f():
-                del L[i]
-        elif how == "pop":
-            E = Expect("TreeList.pop")
-            E.displaced = [m[i]]
-            t = m.pop(i)
-            f = lambda: L.pop(i)
-        else:
-            E = Expect("TreeList.remove")
-            t = m[i]
-            E.displaced = [t]
-            # list.remove takes the first equal element; Tree equality is identity
-            m.remove(t)
-            f = lambda: L.remove(t)
-        E.lists[id(L)] = (L, self.objs(m))
-        self.call(E, f)
-        self.trim()
-
-    def _memo(self, d, trees, E):
-        """pre-seeded taxon_mapping_memo: one taxon used by the trees -> a brand-new Taxon object."""
-        import dendropy
-        if not pick(d, "memo", lambda: self.rng.random() < 0.12):
-            return None, None
-        used = []
-        for t in trees:
-            for x in U.walk(t):
-                if x[1] is not None and not any(x[1] is u for u in used):
-                    used.append(x[1])
-        if not used:
-            d["memo"] = False
-            return None, None
-        p = used[pick(d, "memo_i", lambda: self.rng.randrange(len(used))) % len(used)]
-        q = dendropy.Taxon(label="zeta")
-        return {p: q}, {id(p): (p, q)}
-
-    def op_migrate(self, d):
-        L = self.L(d)
-        if not self.movable(L):
-            return
-        ns = self.other_ns(d, L.taxon_namespace)
-        unify = pick(d, "unify", lambda: self.rng.random() > 0.3)
-        m = self.model(L)
-        E = Expect("TreeList.migrate_taxon_namespace", "unify" if unify else "no-unify")
-        memo, want = self._memo(d, m, E)
-        mode = "unify" if unify else "distinct"
-        E.inplace = [(t, mode, want) for t in m]
-        E.lists[id(L)] = (L, self.objs(m))
-        for t in m:
-            self.sig(E.op, mode, ns, self.labels_of(t))
-        kw = {"taxon_mapping_memo": memo} if memo is not None else {}
-        self.call(E, lambda: L.migrate_taxon_namespace(ns, unify_taxa_by_label=unify, **kw))
-
-    def op_reconstruct(self, d):
-        L = self.L(d)
-        if not self.movable(L):
-            return
-        ns = self.other_ns(d, L.taxon_namespace, same_p=0.3)
-        unify = pick(d, "unify", lambda: self.rng.random() > 0.3)
-        m = self.model(L)
-        E = Expect("TreeList.reconstruct_taxon_namespace", "unify" if unify else "no-unify")
-        mode = "unify" if unify else "distinct"
-        E.inplace = [(t, mode, None) for t in m]
-        E.lists[id(L)] = (L, self.objs(m))
-        for t in m:
-            self.sig(E.op, mode, ns, self.labels_of(t))
-        L.taxon_namespace = ns      # documented usage: change the reference, then rebuild
-        self.call(E, lambda: L.reconstruct_taxon_namespace(unify_taxa_by_label=unify))
-
-    def op_update(self, d):
-        L = self.L(d)
-        if not self.movable(L):
-            return
-        ns = self.other_ns(d, L.taxon_namespace, same_p=0.3)
-        m = self.model(L)
-        E = Expect("TreeList.update_taxon_namespace")
-        E.inplace = [(t, "add", None) for t in m]
-        E.lists[id(L)] = (L, self.objs(m))
-        for t in m:
-            self.sig(E.op, "add", ns, self.labels_of(t))
-        L.taxon_namespace = ns
-        self.call(E, lambda: L.update_taxon_namespace())
-
-    def op_ctor(self, d):
-        import dendropy
-        rng = self.rng
-        kind = pick(d, "src", lambda: rng.choice(["tl", "tl", "list"]))
-        ns = self.NS(pick(d, "ns", lambda: rng.randrange(len(self.w.namespaces))) % len(self.w.namespaces))
-        if kind == "tl" and self.w.lists:
-            o = self.L(d)
-            use_kw = pick(d, "use_kw", lambda: rng.random() < 0.8)
-            tgt = ns if use_kw else o.taxon_namespace
-            mode = "same" if o.taxon_namespace is tgt else "unify"
-            E = Expect("TreeList.__init__", "tl/" + mode)
-            E.newlist = ("self", [("clone", t, mode) for t in self.model(o)])
-            for t in self.model(o):
-                self.sig(E.op, mode, tgt, self.labels_of(t))
-            kw = {"taxon_namespace": ns} if use_kw else {}
-            self.call(E, lambda: dendropy.TreeList(o, **kw))
-        else:
-            tds = pick(d, "ts", lambda: [self.rand_td(ns) for _ in range(rng.randint(1, 3))])
-            trees = [self.build(td) for td in tds]
-            E = Expect("TreeList.__init__", "list")
-            E.inplace = [(t, self.mode(t, ns), None) for t in trees]
-            E.consumed = list(trees)
-            E.newlist = ("self", self.objs(trees))
-            for t in trees:
-                self.sig(E.op, self.mode(t, ns), ns, self.labels_of(t))
-            self.call(E, lambda: dendropy.TreeList(trees, taxon_namespace=ns))
-        self.trim()
-
-    # ---- CharacterMatrix -------------------------------------------------------------------------
-    def M(self, d):
-        if not self.w.mats:
-            raise Stop()
-        return self.w.mats[pick(d, "m", lambda: self.rng.randrange(len(self.w.mats))) % len(self.w.mats)]
-
-    def next_seq(self):
-        self.w.rowno += 1
-        return U.seq_for(self.w.rowno)
-
-    def _key(self, d, m):
-        """a row key for an assignment: member Taxon / foreign Taxon / label / index."""
-        import dendropy
-        rng = self.rng
-        ns = m.taxon_namespace
-        kind = pick(d, "key", lambda: rng.choice(["taxon", "taxon", "label", "label", "index", "foreign", "newlabel"]))
-        members = list(ns)
-        if kind in ("taxon", "index") and not members:
-            kind = d["key"] = "newlabel"
-        if kind == "taxon":
-            return kind, members[pick(d, "k", lambda: rng.randrange(len(members))) % len(members)]
-        if kind == "index":
-            return kind, pick(d, "k", lambda: rng.randrange(len(members))) % len(members)
-        if kind == "foreign":
-            others = [x for x in self.w.namespaces if x is not ns and len(x)]
-            if others:
-                o = others[pick(d, "k", lambda: rng.randrange(len(others))) % len(others)]
-                cand = [t for t in o if t not in ns]
-                if cand:
-                    return kind, cand[0]
-            return kind, dendropy.Taxon(label=pick(d, "label", lambda: rng.choice(self.uni)))
-        return kind, pick(d, "label", lambda: rng.choice(self.uni))
-
-    def op_m_assign(self, d):
-        m = self.M(d)
-        ns = m.taxon_namespace
-        via = pick(d, "via", lambda: self.rng.choice(["setitem", "setitem", "new_sequence", "getitem"]))
-        kind, key = self._key(d, m)
-        sq = self.next_seq()
-        E = Expect("CharacterMatrix.%s" % {"setitem": "__setitem__", "getitem": "__getitem__"}.get(via, via), kind)
-        E.allowed = (ValueError, KeyError, IndexError)
-        if via == "getitem":
-            E.assign = (m, [])
-            self.call(E, lambda: m[key])
-            return
-        if kind == "index":
-            tx = list(ns)[key]
-            E.assign = (m, [(tx, sq)])
-        elif kind in ("taxon", "foreign"):
-            E.assign = (m, [(key, sq)])
-        else:
-            E.assign = (m, [(key, sq)])
-        if via == "new_sequence":
-            if kind in ("label", "newlabel", "index"):
-                key = list(ns)[key] if kind == "index" else (ns.get_taxon(key) or key)
-                if isinstance(key, str):
-                    return
-                E.assign = (m, [(key, sq)])
-            self.call(E, lambda: m.new_sequence(key, sq))
-        else:
-            def f():
-                m[key] = sq
-            self.call(E, f)
-
-    def op_m_from_dict(self, d):
-        import dendropy
-        m = self.M(d)
-        ns = m.taxon_namespace
-        rng = self.rng
-        labels = U.canon_distinct(pick(d, "labels", lambda: rng.sample(self.uni, rng.randint(1, min(4, len(self.uni))))))
-        src = {}
-        assigned = []
-        for l in labels:
-            sq = self.next_seq()
-            src[l] = sq
-            assigned.append((l, sq))
-        if pick(d, "taxon_key", lambda: rng.random() < 0.3):
-            tx = dendropy.Taxon(label=pick(d, "tlabel", lambda: rng.choice(self.uni)))
-            sq = self.next_seq()
-            src[tx] = sq
-            assigned.append((tx, sq))
-        E = Expect("CharacterMatrix.from_dict")
-        E.assign = (m, assigned)
-        self.sig(E.op, "unify", ns, labels)
-        self.call(E, lambda: type(m).from_dict(src, char_matrix=m, case_sensitive_taxon_labels=bool(ns.is_case_sensitive)))
-
-    def _collision(self, rows_labels, ns):
-        cf = U.canon_fn(bool(ns.is_case_sensitive))
-        c = [cf(x) for x in rows_labels]
-        return len(set(c)) != len(c)
-
-    def op_m_migrate(self, d):
-        from dendropy.utility import error
-        m = self.M(d)
-        if not self.movable(m):
-            return
-        how = pick(d, "how", lambda: self.rng.choice(["migrate", "migrate", "reconstruct", "update"]))
-        ns = self.other_ns(d, m.taxon_namespace, same_p=0.1 if how == "migrate" else 0.3)
-        unify = pick(d, "unify", lambda: self.rng.random() > 0.3)
-        labels = [t.label for t in m._taxon_sequence_map]
-        if how == "update":
-            E = Expect("CharacterMatrix.update_taxon_namespace")
-            E.mats = [(m, "add")]
-            self.sig(E.op, "add", ns, labels)
-            m.taxon_namespace = ns
-            self.call(E, lambda: m.update_taxon_namespace())
-            return
-        E = Expect("CharacterMatrix.%s_taxon_namespace" % how, "unify" if unify else "no-unify")
-        E.mats = [(m, "unify" if unify else "distinct")]
-        if unify and self._collision(labels, ns):
-            E.collision = True
-            E.allowed = (error.TaxonNamespaceReconstructionError,)
-        self.sig(E.op, "unify" if unify else "distinct", ns, labels)
-        if how == "reconstruct" and E.collision and ns is not m.taxon_namespace:
-            how = d["how"] = "migrate"
-            E.op = "CharacterMatrix.migrate_taxon_namespace"
-        if how == "migrate":
-            self.call(E, lambda: m.migrate_taxon_namespace(ns, unify_taxa_by_label=unify))
-        else:
-            m.taxon_namespace = ns
-            self.call(E, lambda: m.reconstruct_taxon_namespace(unify_taxa_by_label=unify))
-
-    # ---- DataSet -----------------------------------------------------------------------------------
-    def D(self, d):
-        if not self.w.datasets:
-            raise Stop()
-        return self.w.datasets[pick(d, "d", lambda: self.rng.randrange(len(self.w.datasets))) % len(self.w.datasets)]
-
-    def op_d_new_tree_list(self, d):
-        ds = self.D(d)
-        rng = self.rng
-        att = ds.attached_taxon_namespace
-        kind = pick(d, "src", lambda: rng.choice(["empty", "list", "list", "tl", "tl", "foreign_kw"]))
-        E = Expect("DataSet.new_tree_list", kind)
-        if kind == "tl" and not self.w.lists:
-            kind = d["src"] = "empty"
-        if kind == "empty":
-            E.newlist = ("result", [])
-            self.call(E, lambda: ds.new_tree_list())
-        elif kind == "foreign_kw":
-            ns = self.other_ns(d, att, same_p=0.2) if att is not None else self.NS(
-                pick(d, "ns", lambda: rng.randrange(len(self.w.namespaces))) % len(self.w.namespaces))
-            if att is not None and ns is not att:
-                E.allowed = (TypeError,)
-            E.newlist = ("result", [])
-            self.call(E, lambda: ds.new_tree_list(taxon_namespace=ns))
-        elif kind == "tl":
-            o = self.L(d)
-            tgt = att if att is not None else o.taxon_namespace
-            mode = "same" if o.taxon_namespace is tgt else "unify"
-            E.disc = "tl/" + mode
-            E.newlist = ("result", [("clone", t, mode) for t in self.model(o)])
-            for t in self.model(o):
-                self.sig(E.op, mode, tgt, self.labels_of(t))
-            self.call(E, lambda: ds.new_tree_list(o))
-        else:
-            if att is None:
-                tgt = self.NS(pick(d, "ns", lambda: rng.randrange(len(self.w.namespaces))) % len(self.w.namespaces))
-                kw = {"taxon_namespace": tgt}
-            else:
-                tgt, kw = att, {}
-            trees = [self.build(td) for td in pick(d, "ts", lambda: [self.rand_td(tgt) for _ in range(rng.randint(1, 3))])]
-            E.inplace = [(t, self.mode(t, tgt), None) for t in trees]
-            E.consumed = list(trees)
-            E.newlist = ("result", self.objs(trees))
-            for t in trees:
-                self.sig(E.op, self.mode(t, tgt), tgt, self.labels_of(t))
-            self.call(E, lambda: ds.new_tree_list(trees, **kw))
-        self.trim()
-
-    def op_d_new_char_matrix(self, d):
-        import dendropy
-        ds = self.D(d)
-        rng = self.rng
-        att = ds.attached_taxon_namespace
-        kind = pick(d, "src", lambda: rng.choice(["empty", "dict", "dict", "matrix", "matrix", "foreign_kw"]))
-        if kind == "matrix" and not self.w.mats:
-            kind = d["src"] = "dict"
-        E = Expect("DataSet.new_char_matrix", kind)
-        E.newmat = "result"
-        typ = pick(d, "type", lambda: rng.choice(["dna", "class"]))
-        # ("dna", positional argument) is refused by the library for a reason unrelated to namespaces
-        # (new_char_matrix() got multiple values for 'data_type'): the class form is used with a source
-        typ = "dna" if typ == "dna" and kind in ("empty", "foreign_kw") else dendropy.DnaCharacterMatrix
-        kw = {}
-        if att is None:
-            kw["taxon_namespace"] = self.NS(pick(d, "ns", lambda: rng.randrange(len(self.w.namespaces))) % len(self.w.namespaces))
-        tgt = att if att is not None else kw["taxon_namespace"]
-        if kind == "empty":
-            self.call(E, lambda: ds.new_char_matrix(typ, **kw))
-        elif kind == "foreign_kw":
-            ns = self.other_ns(d, tgt, "kwns", same_p=0.2)
-            if att is not None and ns is not att:
-                E.allowed = (TypeError,)
-            self.call(E, lambda: ds.new_char_matrix(typ, taxon_namespace=ns))
-        elif kind == "dict":
-            labels = U.canon_distinct(pick(d, "labels", lambda: rng.sample(self.uni, rng.randint(1, min(4, len(self.uni))))))
-            src = [(l, self.next_seq()) for l in labels]
-            E.newrows = labels
-            self.sig(E.op, "unify", tgt, labels)
-            # NB the constructor's from_dict uses case-insensitive key matching by default: only judged for
-            # case-insensitive targets
-            if tgt.is_case_sensitive:
-                E.newrows = None
-            self.call(E, lambda: ds.new_char_matrix(typ, src, **kw))
-        else:
-            o = self.M(d)
-            mode = "same" if o.taxon_namespace is tgt else "unify"
-            E.disc = "matrix/" + mode
-            E.matclone = (o, mode)
-            labels = [t.label for t in o._taxon_sequence_map]
-            # the copy maps EVERY member of the source namespace by label first: collisions among them merge rows
-            E.collision = self._collision(labels, tgt) and mode == "unify"
-            self.sig(E.op, mode, tgt, labels)
-            self.call(E, lambda: ds.new_char_matrix(typ, o, **kw))
-        self.trim()
-
-    def op_d_add(self, d):
-        """add an existing free-standing list / matrix: any for a plain data set, same-namespace only in attached mode."""
-        ds = self.D(d)
-        att = ds.attached_taxon_namespace
-        w = self.w
-        cands = [x for x in w.lists + w.mats if w.dataset_of(x) is None and (att is None or x.taxon_namespace is att)]
-        if not cands:
-            return
-        x = cands[pick(d, "k", lambda: self.rng.randrange(len(cands))) % len(cands)]
-        E = Expect("DataSet.add", type(x).__name__)
-        self.call(E, lambda: ds.add(x))
-
-    def op_d_attach(self, d):
-        """attach a namespace to a data set whose components (if any) all refer to it already."""
-        ds = self.D(d)
-        comps = list(ds.tree_lists) + list(ds.char_matrices)
-        if ds.attached_taxon_namespace is not None:
-            return
-        if comps:
-            ns = comps[0].taxon_namespace
-            if any(c.taxon_namespace is not ns for c in comps):
-                self.ctx.note("attach-over-foreign-components-not-generated")
-                return
-        else:
-            ns = self.NS(pick(d, "ns", lambda: self.rng.randrange(len(self.w.namespaces))) % len(self.w.namespaces))
-        E = Expect("DataSet.attach_taxon_namespace")
-        self.call(E, lambda: ds.attach_taxon_namespace(ns))
-
-    def _doc(self, d, ns):
-        """a document for DataSet.read / DataSet.get: trees and/or one matrix."""
-        rng = self.rng
-        schema = pick(d, "schema", lambda: rng.choice(["newick", "nexus", "nexus", "nexml", "nexml", "fasta"]))
-        rows = None
-        labels = []
-        text = None
-        if schema == "fasta":
-            rl = U.canon_distinct(pick(d, "rows", lambda: rng.sample(self.uni, rng.randint(1, min(4, len(self.uni))))))
-            rows = [(l, self.next_seq()) for l in rl]
-            text = U.fasta_text(rows)
-            self.sig("read/fasta", "unify", ns, rl)
-            return schema, text, [], rl
-        if schema == "nexus" and pick(d, "with_chars", lambda: rng.random() < 0.5):
-            rl = U.canon_distinct(pick(d, "rows", lambda: rng.sample(self.uni, rng.randint(1, min(4, len(self.uni))))))
-            rows = [(l, self.next_seq()) for l in rl]
-            tds = pick(d, "trees", lambda: U.doc_trees(rng, self.uni, rng.randint(0, 2), 2, spelling=rl))
-            specs = [U.spec_of(td, text=True) for td in tds]
-            text = U.nexus_text(specs, taxa_block=True, translate=pick(d, "translate", lambda: rng.random() < 0.3), rows=rows)
-            for s in specs:
-                self.sig("read/nexus", "unify", ns, ref.leaf_taxa(s))
-            return schema, text, [ref.leaf_taxa(s) for s in specs], rl
-        d.setdefault("taxa_block", rng.random() < 0.5 if schema == "nexus" else False)
-        schema, text, labels = self._text(d, ns)
-        return schema, text, labels, None
-
-    def op_d_read(self, d):
-        from dendropy.utility import error
-        ds = self.D(d)
-        att = ds.attached_taxon_namespace
-        # a detached data set may be told which namespace to read into (seeded change C11c: an EMPTY one was ignored)
-        kwns = None
-        if att is None and pick(d, "into_ns", lambda: self.rng.random() < 0.45):
-            def choose():
-                empty = [i for i, x in enumerate(self.w.namespaces) if len(x) == 0]
-                if empty and self.rng.random() < 0.5:
-                    return self.rng.choice(empty)
-                return self.rng.randrange(len(self.w.namespaces))
-            kwns = self.NS(pick(d, "into_which", choose) % len(self.w.namespaces))
-        schema, text, labels, rows = self._doc(d, att if att is not None else kwns)
-        E = Expect("DataSet.read", schema + ("/attached" if att is not None else ("/detached-into-given-namespace" if kwns is not None else "/detached")))
-        E.reads = {"trees": labels, "rows": rows, "dataset": ds, "ns": kwns}
-        kw = {}
-        if kwns is not None:
-            kw["taxon_namespace"] = kwns
-            kw["case_sensitive_taxon_labels"] = bool(kwns.is_case_sensitive)
-        if schema == "fasta":
-            kw["data_type"] = "dna"
-        if att is not None:
-            kw["case_sensitive_taxon_labels"] = bool(att.is_case_sensitive)
-            if pick(d, "foreign_kw", lambda: self.rng.random() < 0.05):
-                kw["taxon_namespace"] = self.other_ns(d, att, "kwns", same_p=0.0)
-                if kw["taxon_namespace"] is not att:
-                    E.allowed = (ValueError,)
-        if schema == "fasta":
-            kw.pop("case_sensitive_taxon_labels", None)
-        self.call(E, lambda: ds.read(data=text, schema=schema, **kw))
-        self.trim()
-
-    def op_d_get(self, d):
-        import dendropy
-        ns = self.NS(pick(d, "ns", lambda: self.rng.randrange(len(self.w.namespaces))) % len(self.w.namespaces))
-        if len(self.w.datasets) >= 3:
-            return
-        schema, text, labels, rows = self._doc(d, ns)
-        E = Expect("DataSet.get", schema)
-        E.newds = "result"
-        kw = {"taxon_namespace": ns}
-        if schema == "fasta":
-            kw["data_type"] = "dna"
-        else:
-            kw["case_sensitive_taxon_labels"] = bool(ns.is_case_sensitive)
-        E.reads = {"trees": labels, "rows": rows, "dataset": None}     # the monitor fills in the data set it gets back
-        res, exc = self.call(E, lambda: dendropy.DataSet.get(data=text, schema=schema, **kw))
-        if res is not None and res.attached_taxon_namespace is not ns:
-            self.mon.viol(E, "new-dataset-not-attached-to-given-namespace", "DataSet.get(taxon_namespace=ns) is not attached to ns")
-            raise Stop()
-        self.trim()
-
-    def op_d_unify(self, d):
-        from dendropy.utility import error
-        ds = self.D(d)
-        comps = list(ds.tree_lists) + list(ds.char_matrices)
-        given = pick(d, "given", lambda: self.rng.random() < 0.5)
-        tgt = None
-        if given:
-            tgt = self.NS(pick(d, "ns", lambda: self.rng.randrange(len(self.w.namespaces))) % len(self.w.namespaces))
-        E = Expect("DataSet.unify_taxon_namespaces", "given-namespace" if given else "new-namespace")
-        if not comps and not len(ds.taxon_namespaces) and tgt is None:
-            E.allowed = (TypeError,)
-        E.unify = (ds, tgt)
-        E.inplace = [(t, "unify", None) for l in ds.tree_lists for t in self.model(l)]
-        for l in ds.tree_lists:
-            E.lists[id(l)] = (l, self.objs(self.model(l)))
-        E.mats = [(m, "unify") for m in ds.char_matrices]
-        # rows of ONE matrix with equal labels under the target's rule cannot be unified: refusal is legitimate
-        cs = bool(tgt.is_case_sensitive) if tgt is not None else False
-        cf = U.canon_fn(cs)
-        for m in ds.char_matrices:
-            c = [cf(t.label) for t in m._taxon_sequence_map]
-            if len(set(c)) != len(c):
-                E.collision = True
-                E.allowed = E.allowed + (error.TaxonNamespaceReconstructionError,)
-        for t, _, _ in E.inplace:
-            self.sig(E.op, "unify", tgt, self.labels_of(t))
-        kw = {"taxon_namespace": tgt} if tgt is not None else {}
-        self.call(E, lambda: ds.unify_taxon_namespaces(**kw))
-
-    # ---- TreeArray -----------------------------------------------------------------------------------
-    def A(self, d):
-        if not self.w.arrays:
-            raise Stop()
-        return self.w.arrays[pick(d, "a", lambda: self.rng.randrange(len(self.w.arrays))) % len(self.w.arrays)][0]
-
-    def op_a_add_tree(self, d):
-        from dendropy.utility import error
-        a = self.A(d)
-        ns = a.taxon_namespace
-        td = pick(d, "t", lambda: self.rand_td(ns, same_p=0.75, distinct=True, leaves_only=True, nmin=2))
-        t = self.build(td)
-        E = Expect("TreeArray.add_tree", "same-namespace" if t.taxon_namespace is ns else "foreign-namespace")
-        if t.taxon_namespace is not ns:
-            E.allowed = (error.TaxonNamespaceIdentityError,)
-            E.array = (a, [], t)
-        else:
-            E.array = (a, [self.labels_of(t)], t)
-        E.consumed = [t]
-        self.call(E, lambda: a.add_tree(t))
-
-    def op_a_read(self, d):
-        a = self.A(d)
-        ns = a.taxon_namespace
-        d.setdefault("taxa_block", False)
-        schema, text, labels = self._text(d, ns, schemas=("newick", "nexus"))
-        E = Expect("TreeArray.read", schema)
-        E.array = (a, labels, None)
-        self.call(E, lambda: a.read(data=text, schema=schema, rooting="force-rooted",
-                                    case_sensitive_taxon_labels=bool(ns.is_case_sensitive)))
+class Driver(DriverBase, ListOps, MatrixOps, DataSetOps, ArrayOps):
+    pass
 
 
 # ------------------------------------------------------------------------------------------------
 WEIGHTS = [("append", 10), ("insert", 6), ("extend", 8), ("add", 4), ("setitem", 4), ("setslice", 5), ("getslice", 2),
-           ("read", 8), ("get", 3), ("new_tree", 3), ("remove", 6), ("migrate", 4), ("reconstruct", 3), ("update", 3),
-           ("ctor", 3), ("m_assign", 6), ("m_from_dict", 4), ("m_migrate", 5), ("d_new_tree_list", 4),
-           ("d_new_char_matrix", 4), ("d_add", 2), ("d_attach", 1), ("d_read", 6), ("d_get", 1), ("d_unify", 2),
-           ("a_add_tree", 3), ("a_read", 2)]
+           ("read", 8), ("get", 4), ("new_tree", 3), ("remove", 6), ("migrate", 5), ("reconstruct", 3), ("update", 3),
+           ("ctor", 3), ("m_assign", 6), ("m_from_dict", 4), ("m_migrate", 5), ("m_get", 3), ("m_ctor", 2),
+           ("d_new_tree_list", 4), ("d_new_char_matrix", 4), ("d_add", 2), ("d_attach", 1), ("d_detach", 1), ("d_read", 6),
+           ("d_get", 1), ("d_unify", 3), ("d_ctor", 1),
+           ("a_add_tree", 4), ("a_read", 3), ("a_merge", 3), ("a_from_list", 1)]
+NEEDS_NOTHING = ("get", "ctor", "m_get", "m_ctor", "m_from_dict", "d_get", "d_ctor")
 
 
 def random_setup(rng, uni):
@@ -1065,14 +186,14 @@ def random_setup(rng, uni):
         labels = rng.sample(uni, rng.randint(0, len(uni) // 2)) if rng.random() > 0.2 else []
         if not cs and rng.random() < 0.8:
             labels = U.canon_distinct(labels)
-        ops.append({"op": "mk_ns", "cs": cs, "labels": labels})
+        ops.append({"op": "mk_ns", "cs": cs, "labels": labels, "frozen": len(labels) >= 2 and rng.random() < 0.13})
     for _ in range(rng.randint(1, 3)):
-        ops.append({"op": "mk_list", "ns": rng.randrange(n_ns)})
+        ops.append({"op": "mk_list", "ns": rng.randrange(n_ns), "sub": rng.random() < 0.2})
     for _ in range(rng.randint(0, 2)):
-        ops.append({"op": "mk_matrix", "ns": rng.randrange(n_ns)})
+        ops.append({"op": "mk_matrix", "ns": rng.randrange(n_ns), "dtype": rng.choice(["dna", "dna", "protein", "standard", "continuous"])})
     if rng.random() < 0.65:
         ops.append({"op": "mk_dataset", "attach": rng.randrange(n_ns) if rng.random() < 0.7 else None})
-    if rng.random() < 0.4:
+    for _ in range(rng.choice([0, 0, 0, 1, 1, 2])):
         ops.append({"op": "mk_array", "ns": rng.randrange(n_ns)})
     return ops
 
@@ -1080,13 +201,21 @@ def random_setup(rng, uni):
 def next_op(rng, w):
     names, weights = [], []
     for name, wt in WEIGHTS:
-        if name.startswith("m_") and not w.mats:
-            continue
-        if name.startswith("d_") and name != "d_get" and not w.datasets:
-            continue
-        if name.startswith("a_") and not w.arrays:
-            continue
-        if not name.startswith(("m_", "d_", "a_")) and not w.lists and name not in ("get", "ctor"):
+        if name in NEEDS_NOTHING:
+            pass
+        elif name.startswith("m_"):
+            if not w.mats:
+                continue
+        elif name.startswith("d_"):
+            if not w.datasets:
+                continue
+        elif name == "a_from_list":
+            if not w.lists:
+                continue
+        elif name.startswith("a_"):
+            if not w.arrays:
+                continue
+        elif not w.lists:
             continue
         names.append(name)
         weights.append(wt)
@@ -1098,100 +227,216 @@ def T(ns, labels, shape=1, itax=()):
     return {"ns": ns, "labels": list(labels), "itax": list(itax), "shape": shape}
 
 
+def NSOP(labels, cs=False, frozen=False):
+    return {"op": "mk_ns", "cs": cs, "labels": list(labels), "frozen": frozen}
+
+
+def DOC(schema, colls=(), mats=(), **kw):
+    d = {"schema": schema, "colls": [[T(None, l, k + 1) for k, l in enumerate(c)] for c in colls],
+         "mats": [{"rows": list(r), "dtype": kw.pop("dtype", "dna"), "seqs": [900 + 10 * i + j for j in range(len(r))]} for i, r in enumerate(mats)]}
+    d.update(kw)
+    return d
+
+
+PLAIN = {"srckind": "data", "foreign_kw": False, "coff": None, "toff": None}
+
 DIRECTED = [
     # a NeXML source read into a list whose namespace already knows some of the labels
     ("nexml-read-into-populated-list", [
-        {"op": "mk_ns", "cs": False, "labels": ["ant", "bee"]},
+        NSOP(["ant", "bee"]),
         {"op": "mk_list", "ns": 0},
-        {"op": "append", "l": 0, "t": T(0, ["ant", "bee"]), "strategy": "migrate", "unify": True},
-        {"op": "read", "l": 0, "schema": "nexml", "trees": [T(None, ["ant", "bee", "cat"])], "foreign_kw": False}]),
+        {"op": "append", "l": 0, "t": T(0, ["ant", "bee"]), "strategy": "migrate", "unify": True, "memo": False},
+        dict(PLAIN, op="read", l=0, doc=DOC("nexml", [[["ant", "bee", "cat"]]]))]),
     ("nexml-get-into-populated-namespace", [
-        {"op": "mk_ns", "cs": False, "labels": ["ant", "bee"]},
-        {"op": "get", "ns": 0, "schema": "nexml", "trees": [T(None, ["bee", "cat"])]}]),
+        NSOP(["ant", "bee"]),
+        dict(PLAIN, op="get", ns=0, doc=DOC("nexml", [[["bee", "cat"]]]), sub=False, legacy_kw=False)]),
+    # TreeList.get / CharacterMatrix.get into a namespace that is passed in but still empty
+    ("get-into-empty-given-namespace", [
+        NSOP([]),
+        dict(PLAIN, op="get", ns=0, doc=DOC("newick", [[["ant", "bee"], ["bee", "cat"]]]), sub=False, legacy_kw=False),
+        dict(PLAIN, op="get", ns=0, doc=DOC("nexus", [[["Ant", "cat"]]], taxa="none", translate=False), sub=False, legacy_kw=False),
+        dict(PLAIN, op="m_get", ns=0, dtype="dna", moff=None, doc=DOC("fasta", [], [["ant", "dog"]])),
+        dict(PLAIN, op="m_get", ns=0, dtype="dna", moff=None, doc=DOC("phylip", [], [["dog", "eel"]], interleave=False, strict=False))]),
+    # collection_offset / tree_offset: the reader builds separate lists, the selected trees join the target
+    ("read-with-collection-and-tree-offset", [
+        NSOP(["bee", "Ant"]),
+        {"op": "mk_list", "ns": 0},
+        dict(PLAIN, op="read", l=0, coff=0, toff=1, doc=DOC("nexus", [[["ant", "bee", "cat"], ["ant", "bee"]], [["cat", "dog"]]], taxa="none", translate=False)),
+        dict(PLAIN, op="read", l=0, coff=-1, doc=DOC("nexml", [[["ant", "eel"]], [["cat", "fox"]]])),
+        dict(PLAIN, op="get", ns=0, coff=1, doc=DOC("nexus", [[["ant", "bee"]], [["gnu", "bee"]]], taxa="one", translate=True), sub=False, legacy_kw=False)]),
     # a matrix whose taxa are members already is rebuilt / unified
     ("matrix-reconstruct-when-consistent", [
-        {"op": "mk_ns", "cs": False, "labels": ["ant", "bee"]},
+        NSOP(["ant", "bee"]),
         {"op": "mk_matrix", "ns": 0},
-        {"op": "m_from_dict", "m": 0, "labels": ["ant", "bee"], "taxon_key": False},
-        {"op": "m_migrate", "m": 0, "how": "reconstruct", "ns": 0, "unify": True}]),
+        {"op": "m_from_dict", "into": "matrix", "m": 0, "labels": ["ant", "bee"], "taxon_key": False},
+        {"op": "m_migrate", "m": 0, "how": "reconstruct", "ns": 0, "unify": True, "memo": False}]),
+    # taxon_mapping_memo handed to the matrix / list rebuilders: the target given by the mapping must become a member
+    ("reconstruct-with-mapping-memo", [
+        NSOP(["ant", "bee"]),
+        NSOP([]),
+        {"op": "mk_matrix", "ns": 0},
+        {"op": "mk_list", "ns": 0},
+        {"op": "m_from_dict", "into": "matrix", "m": 0, "labels": ["ant", "bee"], "taxon_key": False},
+        {"op": "append", "l": 0, "t": T(0, ["ant", "bee"]), "strategy": "migrate", "unify": True, "memo": False},
+        {"op": "m_migrate", "m": 0, "how": "reconstruct", "ns": 1, "unify": True, "memo": True, "memo_key": "used", "memo_i": 0, "memo_to": "new"},
+        {"op": "reconstruct", "l": 0, "ns": 1, "unify": True, "memo": True, "memo_key": "used", "memo_i": 1, "memo_to": "new"},
+        {"op": "m_migrate", "m": 0, "how": "migrate", "ns": 0, "unify": False, "memo": True, "memo_key": "used", "memo_i": 0, "memo_to": "third", "memo_o": 0, "memo_j": 0}]),
     ("dataset-unify-into-namespace-of-own-matrix", [
-        {"op": "mk_ns", "cs": False, "labels": ["ant", "bee"]},
-        {"op": "mk_ns", "cs": False, "labels": []},
+        NSOP(["ant", "bee"]),
+        NSOP([]),
         {"op": "mk_matrix", "ns": 0},
         {"op": "mk_list", "ns": 1},
-        {"op": "m_from_dict", "m": 0, "labels": ["ant", "bee"], "taxon_key": False},
-        {"op": "append", "l": 0, "t": T(1, ["ant", "cat"]), "strategy": "migrate", "unify": True},
+        {"op": "m_from_dict", "into": "matrix", "m": 0, "labels": ["ant", "bee"], "taxon_key": False},
+        {"op": "append", "l": 0, "t": T(1, ["ant", "cat"]), "strategy": "migrate", "unify": True, "memo": False},
         {"op": "mk_dataset", "attach": None},
         {"op": "d_add", "d": 0, "k": 0},
         {"op": "d_add", "d": 0, "k": 0},
-        {"op": "d_unify", "d": 0, "given": True, "ns": 0}]),
+        {"op": "d_unify", "d": 0, "given": True, "ns": 0, "via": "unify", "attach": "default", "cslm": False}]),
     ("matrix-migrate-back-to-namespace-that-shares-its-taxa", [
-        {"op": "mk_ns", "cs": False, "labels": ["ant", "bee"]},
-        {"op": "mk_ns", "cs": False, "labels": []},
+        NSOP(["ant", "bee"]),
+        NSOP([]),
         {"op": "mk_matrix", "ns": 0},
-        {"op": "m_from_dict", "m": 0, "labels": ["ant", "bee"], "taxon_key": False},
+        {"op": "m_from_dict", "into": "matrix", "m": 0, "labels": ["ant", "bee"], "taxon_key": False},
         {"op": "m_migrate", "m": 0, "how": "update", "ns": 1},
-        {"op": "m_migrate", "m": 0, "how": "migrate", "ns": 0, "unify": True}]),
+        {"op": "m_migrate", "m": 0, "how": "migrate", "ns": 0, "unify": True, "memo": False}]),
     ("matrix-reconstruct-after-reassignment-refused", [
-        {"op": "mk_ns", "cs": False, "labels": ["ant", "bee"]},
-        {"op": "mk_ns", "cs": False, "labels": []},
+        NSOP(["ant", "bee"]),
+        NSOP([]),
         {"op": "mk_matrix", "ns": 0},
-        {"op": "m_from_dict", "m": 0, "labels": ["ant", "bee"], "taxon_key": False},
+        {"op": "m_from_dict", "into": "matrix", "m": 0, "labels": ["ant", "bee"], "taxon_key": False},
         {"op": "m_migrate", "m": 0, "how": "update", "ns": 1},
-        {"op": "m_from_dict", "m": 0, "labels": ["cat"], "taxon_key": False},
-        {"op": "m_migrate", "m": 0, "how": "reconstruct", "ns": 0, "unify": True}]),
+        {"op": "m_from_dict", "into": "matrix", "m": 0, "labels": ["cat"], "taxon_key": False},
+        {"op": "m_migrate", "m": 0, "how": "reconstruct", "ns": 0, "unify": True, "memo": False}]),
     # rows that differ in case only, moved to a case-insensitive namespace: the refusal is legitimate
     ("matrix-migrate-with-case-collision", [
-        {"op": "mk_ns", "cs": True, "labels": ["ant", "Ant", "bee"]},
-        {"op": "mk_ns", "cs": False, "labels": []},
+        NSOP(["ant", "Ant", "bee"], cs=True),
+        NSOP([]),
         {"op": "mk_matrix", "ns": 0},
-        {"op": "m_from_dict", "m": 0, "labels": ["bee"], "taxon_key": False},
+        {"op": "m_from_dict", "into": "matrix", "m": 0, "labels": ["bee"], "taxon_key": False},
         {"op": "m_assign", "m": 0, "via": "setitem", "key": "index", "k": 0},
         {"op": "m_assign", "m": 0, "via": "setitem", "key": "index", "k": 1},
-        {"op": "m_migrate", "m": 0, "how": "migrate", "ns": 1, "unify": True}]),
+        {"op": "m_migrate", "m": 0, "how": "migrate", "ns": 1, "unify": True, "memo": False}]),
     # the same legitimate refusal in the middle of DataSet.unify_taxon_namespaces (attached mode)
     ("dataset-unify-refused-midway", [
-        {"op": "mk_ns", "cs": True, "labels": ["ant", "Ant", "bee"]},
+        NSOP(["ant", "Ant", "bee"], cs=True),
         {"op": "mk_dataset", "attach": 0},
         {"op": "d_new_tree_list", "d": 0, "src": "list", "ts": [T(0, ["ant", "bee"])]},
-        {"op": "d_new_char_matrix", "d": 0, "src": "empty", "type": "class"},
+        {"op": "d_new_char_matrix", "d": 0, "src": "empty", "type": "class", "dtype": "dna"},
         {"op": "m_assign", "m": 0, "via": "setitem", "key": "index", "k": 0},
         {"op": "m_assign", "m": 0, "via": "setitem", "key": "index", "k": 1},
         {"op": "m_assign", "m": 0, "via": "setitem", "key": "index", "k": 2},
-        {"op": "d_unify", "d": 0, "given": False}]),
+        {"op": "d_unify", "d": 0, "given": False, "via": "unify", "attach": "default", "cslm": False}]),
+    # unification of an attached data set without (re-)attaching; the legacy alias does the same by default
+    ("dataset-unify-without-attaching", [
+        NSOP(["ant", "bee"]),
+        NSOP([]),
+        {"op": "mk_dataset", "attach": 0},
+        {"op": "d_new_tree_list", "d": 0, "src": "list", "ts": [T(0, ["ant", "bee"])]},
+        {"op": "d_unify", "d": 0, "given": True, "ns": 1, "via": "unify", "attach": "no", "cslm": False}]),
+    ("dataset-legacy-unify-taxa", [
+        NSOP(["ant", "bee"]),
+        NSOP([]),
+        {"op": "mk_dataset", "attach": 0},
+        {"op": "d_new_tree_list", "d": 0, "src": "list", "ts": [T(0, ["ant", "bee"])]},
+        {"op": "d_unify", "d": 0, "given": True, "ns": 1, "via": "legacy", "attach": "default"}]),
     # the three spot probes of the design: +, slice assignment, insert(..., "add")
     ("add-slice-insert-spot-probes", [
-        {"op": "mk_ns", "cs": False, "labels": ["ant", "bee"]},
-        {"op": "mk_ns", "cs": False, "labels": ["bee", "cat"]},
+        NSOP(["ant", "bee"]),
+        NSOP(["bee", "cat"]),
         {"op": "mk_list", "ns": 0},
         {"op": "mk_list", "ns": 1},
-        {"op": "append", "l": 0, "t": T(0, ["ant", "bee"]), "strategy": "migrate", "unify": True},
-        {"op": "append", "l": 1, "t": T(1, ["bee", "cat", "Ant"]), "strategy": "migrate", "unify": True},
+        {"op": "append", "l": 0, "t": T(0, ["ant", "bee"]), "strategy": "migrate", "unify": True, "memo": False},
+        {"op": "append", "l": 1, "t": T(1, ["bee", "cat", "Ant"]), "strategy": "migrate", "unify": True, "memo": False},
         {"op": "add", "l": 0, "src": "tl", "o": 1},
         {"op": "add", "l": 0, "src": "list", "ts": [T(1, ["cat", "dog"])]},
-        {"op": "setslice", "l": 0, "a": 0, "b": 1, "src": "list", "ts": [T(1, ["bee", "eel"]), T(-1, ["ANT"])]},
-        {"op": "setslice", "l": 0, "a": 1, "b": 1, "src": "tl", "o": 1},
+        {"op": "setslice", "l": 0, "a": 0, "b": 1, "st": None, "src": "list", "ts": [T(1, ["bee", "eel"]), T(-1, ["ANT"])]},
+        {"op": "setslice", "l": 0, "a": 1, "b": 1, "st": None, "src": "tl", "o": 1},
+        {"op": "setslice", "l": 0, "a": None, "b": None, "st": 2, "src": "tuple", "ts": [T(1, ["bee", "gnu"]), T(-1, ["hen"])]},
         {"op": "insert", "l": 0, "i": 0, "t": T(1, ["bee", "fox"]), "strategy": "add"},
         {"op": "remove", "l": 0, "how": "pop", "i": 0},
-        {"op": "migrate", "l": 0, "ns": 1, "unify": False, "memo": False},
-        {"op": "append", "l": 1, "t": {"removed": 0}, "strategy": "migrate", "unify": True}]),
+        {"op": "migrate", "l": 0, "ns": 1, "unify": False, "memo": False, "via": "call"},
+        {"op": "append", "l": 1, "t": {"removed": 0}, "strategy": "migrate", "unify": True, "memo": False},
+        {"op": "new_tree", "l": 1, "kind": "clone", "k": 0},
+        {"op": "migrate", "l": 0, "via": "none", "unify": True},
+        {"op": "migrate", "l": 0, "via": "assign", "ns": 0},
+        {"op": "remove", "l": 0, "how": "clear"}]),
+    # the receiver itself / an iterator as the source of an extension or a slice assignment
+    ("extend-with-itself", [
+        NSOP(["ant", "bee"]),
+        {"op": "mk_list", "ns": 0},
+        {"op": "append", "l": 0, "t": T(0, ["ant", "bee"]), "strategy": "migrate", "unify": True, "memo": False},
+        {"op": "setslice", "l": 0, "a": 0, "b": 0, "st": None, "src": "self"},
+        {"op": "add", "l": 0, "src": "self"},
+        {"op": "extend", "l": 0, "via": "extend", "src": "self"}]),
+    ("slice-assignment-from-an-iterator", [
+        NSOP(["ant", "bee"]),
+        {"op": "mk_list", "ns": 0},
+        {"op": "append", "l": 0, "t": T(0, ["ant", "bee"]), "strategy": "migrate", "unify": True, "memo": False},
+        {"op": "extend", "l": 0, "via": "iadd", "src": "gen", "ts": [T(-1, ["ant", "cat"])]},
+        {"op": "setslice", "l": 0, "a": 0, "b": 1, "st": None, "src": "iter", "ts": [T(-1, ["ant", "dog"]), T(-1, ["bee", "dog"])]}]),
+    # an immutable namespace as the target of a migration: a refusal must leave the container where it was
+    ("migrate-into-immutable-namespace", [
+        NSOP(["ant", "bee"], frozen=True),
+        NSOP([]),
+        {"op": "mk_list", "ns": 1},
+        {"op": "append", "l": 0, "t": T(1, ["ant", "bee"]), "strategy": "migrate", "unify": True, "memo": False},
+        {"op": "migrate", "l": 0, "ns": 0, "unify": True, "memo": False, "via": "call"},
+        {"op": "migrate", "l": 0, "ns": 1, "unify": True, "memo": False, "via": "call"},
+        {"op": "append", "l": 0, "t": T(1, ["ant", "cat"], 2), "strategy": "migrate", "unify": True, "memo": False},
+        {"op": "migrate", "l": 0, "ns": 0, "unify": True, "memo": False, "via": "call"}]),
+    ("matrix-migrate-into-immutable-namespace", [
+        NSOP(["ant", "bee"], frozen=True),
+        NSOP([]),
+        {"op": "mk_matrix", "ns": 1},
+        {"op": "m_from_dict", "into": "matrix", "m": 0, "labels": ["ant", "cat"], "taxon_key": False},
+        {"op": "m_migrate", "m": 0, "how": "migrate", "ns": 0, "unify": True, "memo": False}]),
     ("dataset-attached-reads", [
-        {"op": "mk_ns", "cs": False, "labels": ["ant", "bee"]},
+        NSOP(["ant", "bee"]),
         {"op": "mk_dataset", "attach": 0},
-        {"op": "d_read", "d": 0, "schema": "nexml", "trees": [T(None, ["Ant", "cat"])], "foreign_kw": False},
-        {"op": "d_read", "d": 0, "schema": "nexus", "with_chars": True, "rows": ["bee", "dog"], "trees": [T(None, ["ant", "dog"])],
-         "translate": True, "foreign_kw": False},
-        {"op": "d_read", "d": 0, "schema": "fasta", "rows": ["ANT", "eel"], "foreign_kw": False},
+        dict(PLAIN, op="d_read", d=0, exclude=None, doc=DOC("nexml", [[["Ant", "cat"]]], [["bee", "gnu"]])),
+        dict(PLAIN, op="d_read", d=0, exclude=None, doc=DOC("nexus", [[["ant", "dog"]]], [["bee", "dog"]], taxa="one", translate=True, interleave=True)),
+        dict(PLAIN, op="d_read", d=0, exclude=None, doc=DOC("nexus", [[["ant", "hen"]], [["hen", "ibis"]]], [["ant", "jay"], ["koi", "hen"]], taxa="two", translate=False)),
+        dict(PLAIN, op="d_read", d=0, exclude=None, doc=DOC("fasta", [], [["ANT", "eel"]])),
+        dict(PLAIN, op="d_read", d=0, exclude=None, doc=DOC("phylip", [], [["ant", "bee", "lynx"]], interleave=False, strict=True)),
+        dict(PLAIN, op="d_read", d=0, exclude="chars", doc=DOC("nexus", [[["ant", "bee"]]], [["ant", "bee"]], taxa="none", datablock=True)),
         {"op": "d_new_tree_list", "d": 0, "src": "list", "ts": [T(-1, ["BEE", "fox"])]},
-        {"op": "d_unify", "d": 0, "given": False}]),
+        {"op": "d_unify", "d": 0, "given": False, "via": "unify", "attach": "default", "cslm": True}]),
+    ("phylip-interleaved-into-attached-namespace", [
+        NSOP(["ant", "bee", "cat"]),
+        {"op": "mk_dataset", "attach": 0},
+        dict(PLAIN, op="d_read", d=0, exclude=None, doc=DOC("phylip", [], [["bee", "dog"]], interleave=True, strict=False))]),
     ("array-add-and-read", [
-        {"op": "mk_ns", "cs": False, "labels": ["ant", "bee"]},
-        {"op": "mk_ns", "cs": False, "labels": ["ant"]},
+        NSOP(["ant", "bee"]),
+        NSOP(["ant"]),
         {"op": "mk_array", "ns": 0},
-        {"op": "a_add_tree", "a": 0, "t": T(0, ["ant", "bee", "cat"])},
-        {"op": "a_add_tree", "a": 0, "t": T(1, ["ant", "bee"])},
-        {"op": "a_read", "a": 0, "schema": "newick", "trees": [T(None, ["ANT", "dog", "cat"])]},
-        {"op": "a_read", "a": 0, "schema": "nexus", "trees": [T(None, ["bee", "eel"])], "translate": True}]),
+        {"op": "a_add_tree", "a": 0, "via": "add_tree", "ts": [T(0, ["ant", "bee", "cat"])]},
+        {"op": "a_add_tree", "a": 0, "via": "add_tree", "ts": [T(1, ["ant", "bee"])]},
+        dict(PLAIN, op="a_read", a=0, via="read", ns_kw=False, docs=[DOC("newick", [[["ANT", "dog", "cat"]]])]),
+        dict(PLAIN, op="a_read", a=0, via="read", ns_kw=False, toff=1, docs=[DOC("nexus", [[["bee", "eel"], ["ant", "cat"]]], taxa="none", translate=True)]),
+        dict(PLAIN, op="a_read", a=0, via="files", ns_kw=True, kwns=0, toff=None, filekinds=["file", "path"],
+             docs=[DOC("newick", [[["ant", "fox"]]]), DOC("newick", [[["bee", "fox"], ["cat", "fox"]]])]),
+        {"op": "a_add_tree", "a": 0, "via": "insert", "i": 0, "ts": [T(0, ["dog", "eel"])]},
+        {"op": "a_add_tree", "a": 0, "via": "insert", "i": 2, "ts": [T(0, ["ant", "eel", "fox"])]},
+        {"op": "a_add_tree", "a": 0, "via": "add_trees", "iter": True, "ts": [T(0, ["ant", "bee"]), T(0, ["cat", "dog"], 2)]},
+        {"op": "a_merge", "a": 0, "via": "add", "other": "self"}]),
+    ("array-merge-over-another-namespace", [
+        NSOP(["ant", "bee", "cat", "dog"]),
+        NSOP(["dog", "cat", "bee", "ant"]),
+        {"op": "mk_array", "ns": 0},
+        {"op": "mk_array", "ns": 1},
+        {"op": "a_add_tree", "a": 0, "via": "add_tree", "ts": [T(0, ["ant", "bee", "cat", "dog"])]},
+        {"op": "a_add_tree", "a": 1, "via": "append", "ts": [T(1, ["ant", "bee", "cat"])]},
+        {"op": "a_merge", "a": 0, "via": "extend", "other": "foreign", "reuse": True, "k": 0},
+        {"op": "a_merge", "a": 0, "via": "add", "other": "foreign", "reuse": True, "k": 0},
+        {"op": "a_merge", "a": 0, "via": "update", "other": "foreign", "reuse": True, "k": 0}]),
+    ("tree-array-from-a-list", [
+        NSOP(["ant", "bee"]),
+        {"op": "mk_list", "ns": 0},
+        {"op": "append", "l": 0, "t": T(0, ["ant", "bee", "cat"]), "strategy": "migrate", "unify": True, "memo": False},
+        {"op": "append", "l": 0, "t": T(-1, ["bee", "dog"]), "strategy": "migrate", "unify": True, "memo": False},
+        {"op": "a_from_list", "l": 0, "via": "from_tree_list"},
+        {"op": "a_from_list", "l": 0, "via": "as_tree_array"},
+        {"op": "a_from_list", "l": 0, "via": "split_distribution"}]),
 ]
 
 
@@ -1232,3 +477,6 @@ def run_case(case, ctx):
             ctx.ev("history-stopped")
         finally:
             mon.world = None
+            drv.cleanup()
+            if os.environ.get("C11_DEBUG_STEPS"):
+                ctx.ev("steps-max-bucket:%d" % (drv.max_steps // 500))
